@@ -158,11 +158,11 @@ def stream_ladder(ctx):
     of = ctx.of
     bk, bkt, fw = mods(ctx)
     st = Stream('ladder-images', 'bravyi_kitaev and bravyi_kitaev_tree of every single ladder operator a_j, a_j^dagger '
-                'and bravyi_kitaev of every Majorana operator, for every j < n, every n <= N (N = 20 quick, 48 '
+                'and bravyi_kitaev of every Majorana operator, for every j < n, every n <= N (N = 24 quick, 48 '
                 'thorough); Model compared exactly; Spec oracle on all 2^n occupation masks for n <= 9; '
                 'distinct = (variant, n, operator)')
     b = Batch(ctx, st)
-    N = budget(ctx.tier, 20, 48)
+    N = budget(ctx.tier, 24, 48)
     if ctx.drift:
         N = max(N, 28)
     for n in range(1, N + 1):
@@ -206,12 +206,12 @@ def stream_ladder(ctx):
 def stream_srl(ctx):
     bk, bkt, fw = mods(ctx)
     st = Stream('seeley-richard-love', '_qubit_operator_creation(*_seeley_richard_love(i, j, c, n)) for ALL i, j < n, '
-                'all n <= N (N = 14 quick, 30 thorough) with a complex dyadic coefficient; Model compared exactly (the '
+                'all n <= N (N = 16 quick, 30 thorough) with a complex dyadic coefficient; Model compared exactly (the '
                 'Model reports which of the cases 0-10 fired: histogram in the distribution; case 11 = no branch); Spec '
                 'oracle (n <= 8, and n <= 11/12 for the rare odd-odd cases 7-10): the result acts like c a_i^dagger a_j under the encoding; distinct = (n,i,j,c)')
     b = Batch(ctx, st)
     rng = rng_for(ctx.seed, 'c05-srl')
-    N = budget(ctx.tier, 14, 30)
+    N = budget(ctx.tier, 16, 30)
     NO = budget(ctx.tier, 11, 12)   # oracle bound for the rare odd-odd cases 7-10
     if ctx.drift:
         N = max(N, 18)
@@ -267,7 +267,7 @@ def stream_random(ctx):
                 'n_qubits below the operator size must raise ValueError; distinct = (operator, n_qubits)')
     b = Batch(ctx, st)
     rng = rng_for(ctx.seed, 'c05-random')
-    n_ops = budget(ctx.tier, 90, 2500)
+    n_ops = budget(ctx.tier, 160, 2500)
     if ctx.drift:
         n_ops = max(n_ops, 300)
     prev = None
@@ -352,7 +352,7 @@ def stream_interaction(ctx):
                 'distinct = (tensor, n_qubits)')
     b = Batch(ctx, st)
     rng = rng_for(ctx.seed, 'c05-iop')
-    n_iop = budget(ctx.tier, 60, 900)
+    n_iop = budget(ctx.tier, 100, 900)
     if ctx.drift:
         n_iop = max(n_iop, 150)
     for k in range(n_iop):
@@ -395,7 +395,7 @@ def stream_interaction(ctx):
     # only shows for N >= 5); the Spec operator is written out from the non-zero entries only (cheap oracle)
     rng = rng_for(ctx.seed, 'c05-quartic')
     sizes = [4, 5, 5, 6, 5, 6] + ([9, 10] if ctx.tier == 'thorough' else [])
-    for k in range(budget(ctx.tier, 45, 500)):
+    for k in range(budget(ctx.tier, 72, 500)):
         N = sizes[k % len(sizes)]
         cplx = rng.random() < 0.7
         one = numpy.zeros((N, N), dtype=complex)
